@@ -125,6 +125,10 @@ class Slice(RowFilter):
                 new_stop = self.stop
             else:
                 new_stop = min(self.stop, next.stop + self.start)
+        if new_stop is not None and new_stop < new_start:
+            # The second window lies entirely beyond the first one: the
+            # composition is empty, not an invalid slice.
+            new_stop = new_start
         return Slice(new_start, new_stop)
 
     def applied_min_rows(self, target: Relation) -> int:
